@@ -1,6 +1,7 @@
 // C03: masks behave as vectors of booleans, whatever their representation (stateful / model-based).
 #define VP_CHECK_OBJECT
 #include "../vp.hpp"
+#include <xmmintrin.h>
 #include "../lattice.hpp"
 #include <sys/mman.h>
 #include <unistd.h>
@@ -107,6 +108,9 @@ template<class T> struct Special<T, true> {
         case 10: v = (uint64_t(1) << mb) - 1; *truth = true; break;               // largest subnormal
         default: v = elem<T>::to_bits(T(-2.5)); *truth = true; break;
         }
+        // with denormals-are-zero set (the driver runs some Cases that way) a subnormal lane compares equal to zero by definition of the mode:
+        // no subnormal lanes are used then
+        if ((_mm_getcsr() & 0x40u) && (v & expm) == 0 && (v & ~sgn) != 0) { v = elem<T>::to_bits(T(1)); *truth = true; }
         return v;
     }
     static bool special(unsigned k) { unsigned r = k % 12; return r >= 1 && r <= 5; }
